@@ -308,6 +308,8 @@ pub fn gen_prog_with_cfg(rng: &mut Rng, k: &Knobs, cfg: ProgCfg) -> (ProgCase, G
         let size = if huge { rng.range(1, 12) as usize } else { SizeClass::draw_ex(rng, big, k.mib_frames) };
         let f = frames::build_video(rng, codec, shape, next_stamp(), size, k.decorate);
         let cc = f.has_config;
+        // after the first frame the caller's flag decides, whatever the payload holds: now and then it disagrees
+        let key = if !is_first && !use_enc && rng.chance(3, 100) { !key } else { key };
         let op = if reordered || (mixed && rng.bool()) {
             Op::VideoDts { pts: F(pts_list[n]), dts: F(dts_list[n]), data: Hex(f.data), key, cc }
         } else if use_enc {
@@ -447,8 +449,11 @@ pub fn gen_prog_with_cfg(rng: &mut Rng, k: &Knobs, cfg: ProgCfg) -> (ProgCase, G
     if k.invalid_pct > 0 {
         let mut out: Vec<Op> = Vec::with_capacity(ops.len() + 4);
         let mut last_t = vstart;
-        // a rejected first call before anything else
-        if rng.chance(k.invalid_pct, 100) {
+        // rejected first calls before anything else (up to three: what one leaves behind may change the next)
+        for _ in 0..3 {
+            if !rng.chance(k.invalid_pct, 100) {
+                break;
+            }
             out.push(invalid_op(rng, codec, acodec, last_t, true, k, &mut next_stamp));
             invalid_inserted += 1;
         }
